@@ -12,7 +12,8 @@ CFG = dict(round="ideal", nl_uf=False, div="assume", timeout_ms=4000)
 
 
 def obligations(tier):
-    tfs = ["T5", "H1", "D1"] if tier == "quick" else ["S5", "T1", "T5", "T45", "H1", "H4", "D1", "D7"]
+    # H5 does not divide the day: bucket edges counted from the epoch and from midnight disagree there
+    tfs = ["T5", "H1", "H5", "D1"] if tier == "quick" else ["S5", "T1", "T5", "T7", "T45", "H1", "H4", "H5", "D1", "D2", "D7"]
     n = 4 if tier == "quick" else 5
     obs = []
     for tf in tfs:
@@ -68,8 +69,8 @@ def run(ctx, P):
 
 
 META = dict(
-    bounds=dict(quick="N=4 candles (3 through Indicator/Hexital), timeframes T5/H1/D1, timestamps any integers in [0,4e9] s non-decreasing; schedules: construction, one-by-one, every two-chunk split, 1 preloaded + singles, 0 or 2 extra collapse passes",
-                thorough="N=5 (4 through the API), timeframes S5,T1,T5,T45,H1,H4,D1,D7"),
+    bounds=dict(quick="N=4 candles (3 through Indicator/Hexital), timeframes T5/H1/H5/D1, timestamps any integers in [0,4e9] s non-decreasing; schedules: construction, one-by-one, every two-chunk split, 1 preloaded + singles, 0 or 2 extra collapse passes",
+                thorough="N=5 (4 through the API), timeframes S5,T1,T5,T7,T45,H1,H4,H5,D1,D2,D7"),
     stubs=["datetime -> integer seconds (sub-second part outside the claim)", "process time zone fixed to UTC (C18 makes it symbolic)", "max/min -> If-terms"],
     assumptions=["timestamps are whole seconds", "well-formed OHLCV"],
     explanation="the library's collapse and an independent 12-line resampler are executed on the same symbolic stream; bucket count and all six fields compared by z3 on every feasible path (paths = orderings of timestamps relative to bucket edges)",
